@@ -7,12 +7,12 @@
 (***************************************************************************)
 EXTENDS Integers, Sequences, FiniteSets, TLC
 
-CookieEnv == {"unset", "empty", "prefix", "suffix", "case", "other", "exact"}
-CookieCfg == {"normal", "emptykey", "emptyvalue"}
+CookieEnv == {"unset", "empty", "prefix", "suffix", "case", "other", "spaced", "exact"}   \* spaced: the right value with whitespace around it
+CookieCfg == {"normal", "emptykey", "emptyvalue", "blankvalue"}    \* blankvalue: configured value " " (not empty)
 MuxVar == {"unset", "empty", "true", "false", "one", "garbage"}
 
 \* the cookie is accepted iff key and value are configured and the environment has exactly the value
-CookieOk(cc, ce) == cc = "normal" /\ ce = "exact"
+CookieOk(cc, ce) == cc \in {"normal", "blankvalue"} /\ ce = "exact"
 \* the line has a seventh field iff the host set the multiplexing variable to anything non-empty
 Fields(mv) == IF mv \in {"unset", "empty"} THEN 6 ELSE 7
 
